@@ -12,6 +12,8 @@
                                        | P <id> ERR <LitGtBlock|FourStreams|CSizeGtSrc|DstTooSmall|RawGtSrc>
    G <id> <windowSize> <frameContentSize> <blockSizeMax> <r1,r2,...>   block sizes in order
                                       -> G <id> size=<ZSTD_decodingBufferSize_internal> starts=<outStart after each block, -1 = refused>
+   C <id> <asis|fixed> <ops>          ops = ;-separated  i<addr>:<n> (ZSTD_insertBlock) | d<addr>:<cap>:<r> (ZSTD_decompressBlock ok) | e<addr>:<cap> (error)
+                                      -> C <id> <previousDstEnd,prefixStart,virtualStart,dictEnd; after each call>
    UH <id> <srchex>                   R's reader of a Huffman tree description (table log limit 12 = HUF_TABLELOG_MAX)
                                       -> UH <id> OK used=<n> log=<n> w=<weight,...>  |  UH <id> ERR <class>/<site>
    UN <id> <maxSymbolValue> <srchex>  R's reader of an FSE table description (accuracy log limit 15 = FSE_TABLELOG_ABSOLUTE_MAX)
@@ -133,6 +135,22 @@ let ringtrace id w fcs b rs =
   let st = ring_trace size (zi fcs) (zi b) ring0 rs in
   Printf.printf "G %s size=%d starts=%s\n" id (int_of_z size) (String.concat "," (List.map (fun z -> string_of_int (int_of_z z)) st))
 
+let continuity id mode ops =
+  let st = if mode = "fixed" then step_fixed else step in
+  let zi s = z_of_int (int_of_string s) in
+  let ops = List.filter (fun o -> o <> "") (String.split_on_char ';' ops) in
+  let parse o =
+    let a = String.split_on_char ':' (String.sub o 1 (String.length o - 1)) in
+    match o.[0], a with
+    | 'i', [x; n] -> Insert (zi x, zi n)
+    | 'd', [x; c; r] -> Decode (zi x, zi c, zi r)
+    | 'e', [x; c] -> DecodeErr (zi x, zi c)
+    | 'r', [x; n] -> RefDict (zi x, zi n)
+    | _ -> failwith "badop" in
+  let tr = trace st c_init (List.map parse ops) in
+  Printf.printf "C %s %s\n" id
+    (String.concat "" (List.map (fun s -> Printf.sprintf "%d,%d,%d,%d;" (int_of_z s.c_prev) (int_of_z s.c_prefix) (int_of_z s.c_virt) (int_of_z s.c_dictEnd)) tr))
+
 let unit_huf id hx =
   match read_huf_weights (n_of_int 12) (bytes_of_hex hx) with
   | Ok ((ws, log), used) ->
@@ -157,6 +175,7 @@ let () =
        | ["N"; id; mode; obs] -> watchdog id mode obs
        | "P" :: id :: kind :: rest -> placement id kind rest
        | ["G"; id; w; fcs; b; rs] -> ringtrace id w fcs b rs
+       | ["C"; id; mode; ops] -> continuity id mode ops
        | ["UH"; id; hx] -> unit_huf id hx
        | ["UN"; id; msv; hx] -> unit_ncount id msv hx
        | _ -> if line <> "" then Printf.printf "? BADLINE\n");
